@@ -132,6 +132,15 @@ def repeated_evaluation_scripts():
                     f"{newv}{nl}{oldv}{ol}"))
         out.append(((kind + upd[:2], "same-name-nested-call"), f"x := {init}\nfn outer() {{\n    x := {init}\n    fn inner() {{\n        x {upd}\n        return 0\n    }}\n"
                     f"    inner()\n    print(x)\n    return 0\n}}\nouter()\nprint(x)\n", f"{newv}{nl}{oldv}{ol}"))
+    # a destructuring assignment reads the (live) right-hand list item by item: a target that writes into an alias of that list
+    # is seen by the items read after it
+    out.append((("destructure", "targets-write-into-alias-of-source"), "xs := [1, 2]\nys := xs\n[ys[1], ys[0]] = xs\nprint(xs)\nprint(ys === xs)\n",
+                render_seq([1, 1]) + "true\n"))
+    out.append((("destructure", "targets-write-into-source"), "xs := [1, 2, 3]\n[xs[2], xs[1], xs[0]] = xs\nprint(xs)\n", render_seq([1, 2, 1])))
+    out.append((("destructure", "targets-write-into-copy-of-source"), "xs := [1, 2]\nys := [xs..]\n[ys[1], ys[0]] = xs\nprint(xs)\nprint(ys)\n",
+                render_seq([1, 2]) + render_seq([2, 1])))
+    out.append((("destructure", "object-targets-write-into-alias"), "o := {\"a\": 1, \"b\": 2}\np := o\n{\"a\": p.b, \"b\": p.a} = o\nprint(o)\n",
+                "{\n    \"a\": 1,\n    \"b\": 1,\n}\n"))
     return [((k[0], k[1], "repeated-evaluation"), s, o) for k, s, o in out]
 
 
